@@ -54,6 +54,14 @@ def directed(rnd, quick):
             e1 = ex(1, "chunked", 9, seg=seg, chunk=5)
             e1["also_cl"] = also
             cases.append({"ex": [e1, ex(2, "cl", 5), ex(3, "chunked", 8)], "limit": 1, "concurrent": 1})
+    # gzip-coded bodies inside a complete Content-Length framing: whole, without the trailer, cut in the middle (incompressible
+    # patterns would be needed for sizes; the pattern bytes compress, so n is large)
+    for gz in ("ok", "trunc", "half"):
+        for n in (400, 38400):
+            for seg in (1 << 20, 7):
+                e1 = ex(1, "cl", n, seg=seg)
+                e1["gz"] = gz
+                cases.append({"ex": [e1, ex(2, "cl", 5)], "limit": 1, "concurrent": 1})
     # leftovers after a complete response on a persistent connection, then another request
     for framing in ("cl", "chunked"):
         cases.append({"ex": [ex(1, framing, 12, extra=True), ex(2, "cl", 5), ex(3, "cl", 5)], "limit": 2, "concurrent": 1})
